@@ -71,7 +71,9 @@ def centroid_1dg(data, error=None, mask=None):
     """
     (data, error), _ = process_quantities((data, error), ('data', 'error'))
 
-    data = np.ma.asanyarray(data)
+    # copy so that the mask and fill_value of a MaskedArray input are
+    # not modified below
+    data = np.ma.array(data, copy=True, subok=True)
 
     if mask is not None and mask is not np.ma.nomask:
         mask = np.asanyarray(mask)
@@ -224,7 +226,9 @@ def centroid_2dg(data, error=None, mask=None):
 
     (data, error), _ = process_quantities((data, error), ('data', 'error'))
 
-    data = np.ma.asanyarray(data)
+    # copy so that the mask and fill_value of a MaskedArray input are
+    # not modified below
+    data = np.ma.array(data, copy=True, subok=True)
 
     if mask is not None and mask is not np.ma.nomask:
         mask = np.asanyarray(mask)
